@@ -71,7 +71,60 @@ def first_diff(t, a, b, in_coll=False):
     return k
 
 
-def decode_oracle(ctx, c, prefix, theorem, what):
+def key_class(t, v, pv):
+    """which kind of map key the value contains (for the finding key): null, tuple written short, collection at v1/v2, other"""
+    found = set()
+
+    def short(tt, x):          # a tuple/UDT value with fewer items than fields, anywhere in x
+        k = tt[0]
+        if x[0] == 'null' or k == 's':
+            return False
+        if k in ('frozen', 'reversed'):
+            return short(tt[1], x)
+        if k in ('list', 'set', 'vector'):
+            return any(short(tt[1], y) for y in x[1])
+        if k == 'map':
+            return any(short(tt[1], a) or short(tt[2], b) for a, b in x[1])
+        return len(x[1]) < len(tt[1]) or any(short(t3, y) for t3, y in zip(tt[1], x[1]))
+
+    def strip(tt):
+        while tt[0] in ('frozen', 'reversed'):
+            tt = tt[1]
+        return tt
+
+    def walk(tt, x, top):
+        k = tt[0]
+        if x[0] == 'null' or k == 's':
+            return
+        if k in ('frozen', 'reversed'):
+            return walk(tt[1], x, top)
+        if k in ('list', 'set', 'vector'):
+            for y in x[1]:
+                walk(tt[1], y, False if k != 'vector' else top)
+        elif k == 'map':
+            for a, b in x[1]:
+                if a[0] == 'null':
+                    found.add('null-key')
+                elif short(tt[1], a):
+                    found.add('short-tuple-key')
+                elif G.contains_kind(tt[1], 'set'):
+                    found.add('unsorted-set-in-key')
+                elif top and pv < 3 and strip(tt[1])[0] in ('list', 'set', 'map'):
+                    found.add('collection-key-v1v2')
+                walk(tt[1], a, False)
+                walk(tt[2], b, False)
+        else:
+            for t3, y in zip(tt[1], x[1]):
+                walk(t3, y, False)
+    walk(t, v, True)
+    # known classes first, so that an open finding never hides behind another label
+    for c in ('null-key', 'short-tuple-key', 'unsorted-set-in-key', 'collection-key-v1v2'):
+        if c in found:
+            return c
+    return 'other'
+
+
+def decode_oracle(ctx, c, prefix, theorem, what, api=True):
     """on the implementation: the bytes written for x (C01) / Cassandra's encoding of x (C02) must decode to norm(x)"""
     if 'bs' in c or c['enc'] is None:
         return
@@ -82,6 +135,17 @@ def decode_oracle(ctx, c, prefix, theorem, what):
     want = G.norm(t, v)
     got = G.norm(t, c['dec']) if c['dec'] is not None else None
     if got == want:
+        if api and c.get('api'):
+            cls = key_class(t, v, c['pv'])
+            if cls == 'unsorted-set-in-key':
+                # the harness wrote a set inside a map key in arbitrary order; Cassandra only ever sends sets sorted, and the
+                # driver's sortedset re-serializes in sorted order
+                ctx.count('outside_statement', 'unsorted set inside a map key')
+                return
+            ctx.violation('map-unreadable.' + cls,
+                          'the decoded map cannot be read through the Mapping API (items()/m[key] raise %s): %s at protocol v%d, value %s'
+                          % (c['api'], json.dumps(t), c['pv'], json.dumps(v)[:200]),
+                          case={'pv': c['pv'], 't': t, 'v': v}, expected='items() == decoded pairs', actual=c['api'], theorem='C01_map_keys_found')
         return
     where = 'decode-raises.' + G.kind_of(t) if got is None else first_diff(t, want, got)
     ctx.violation(prefix + '.' + str(where),
@@ -115,9 +179,11 @@ def run_case(pv, t, v, rng=None, stream='valid'):
         return None
     enc, enc_exc = G.impl_encode(T, obj, pv)
     dec, dec_exc = (None, None)
+    api = None
     if enc is not None:
         dec, dec_exc = G.impl_decode(T, t, enc, pv)
-    return {'stream': stream, 'pv': pv, 't': t, 'v': v, 'enc': enc, 'enc_exc': enc_exc, 'dec': dec, 'dec_exc': dec_exc}
+        api = G.impl_api_check(T, t, enc, pv)
+    return {'stream': stream, 'pv': pv, 't': t, 'v': v, 'enc': enc, 'enc_exc': enc_exc, 'dec': dec, 'dec_exc': dec_exc, 'api': api}
 
 
 def decode_case(pv, t, bs, stream='decode'):
@@ -172,6 +238,13 @@ SPECIALS = [
     (3, ['list', ['tuple', [['s', 'text'], ['s', 'int']]]], ['seq', [['seq', [['text', []], ['int', 0]]], ['seq', [['null'], ['null']]]]]),
     (4, ['map', ['s', 'text'], ['udt', [['s', 'blob'], ['s', 'ascii']]]], ['map', [[['text', []], ['seq', [['bytes', []], ['text', []]]]]]]),
     (5, ['set', ['tuple', [['s', 'ascii'], ['tuple', [['s', 'text']]]]]], ['seq', [['seq', [['text', []], ['seq', [['text', []]]]]]]]),
+    # collection-typed map keys at v1/v2: the key arrives in the v3 inner layout and must still be found in the decoded map
+    (2, ['map', ['frozen', ['list', ['s', 'int']]], ['s', 'int']], ['map', [[['seq', [['int', 1], ['int', 2]]], ['int', 7]]]]),
+    (1, ['map', ['set', ['s', 'text']], ['s', 'text']], ['map', [[['seq', [['text', [97]]]], ['text', [98]]], [['seq', []], ['null']]]]),
+    (2, ['map', ['map', ['s', 'int'], ['s', 'int']], ['list', ['s', 'int']]], ['map', [[['map', [[['int', 1], ['int', 2]]]], ['seq', [['int', 3]]]]]]),
+    (3, ['s', 'date'], ['int', -1]),
+    (3, ['s', 'date'], ['int', -365]),
+    (4, ['list', ['s', 'date']], ['seq', [['int', -1], ['int', 0], ['int', -20000]]]),
 ]
 
 # hand-built encodings (written from the protocol specification, not produced by any encoder): what Cassandra sends
@@ -204,6 +277,26 @@ def image_cases():
 BIG_SIZES = [16383, 16384, 16385, 20000, 32767, 32768, 40000]
 
 
+def big16_cases(rng, n=3):
+    """protocol v1/v2 collections whose 16-bit count / element length is >= 0x8000 (unsigned on the wire)"""
+    out = []
+    shapes = []
+    for _ in range(n):
+        L = rng.choice([32767, 32768, 32769, 40000, 65535])
+        shapes += [
+            (['list', ['s', 'blob']], ['seq', [['bytes', [5]], ['bytes', [7] * L], ['bytes', []]]]),
+            (['set', ['s', 'text']], ['seq', [['text', [97] * L], ['text', [98]]]]),
+            (['list', ['s', 'text']], ['seq', [['text', []]] * L]),
+            (['map', ['s', 'blob'], ['s', 'blob']], ['map', [[['bytes', [1]], ['bytes', [9] * L]]]]),
+        ]
+    rng.shuffle(shapes)
+    for t, v in shapes[:max(3, n)]:
+        c = run_case(rng.choice([1, 2]), t, v, None, 'big16')
+        if c:
+            out.append(c)
+    return out
+
+
 def big_vector_cases(rng, n=3):
     """variable-width vector elements of 16-40 KiB: the unsigned-vint size prefix crosses its 2-byte/3-byte boundary (2^14)"""
     out = []
@@ -229,10 +322,11 @@ def gen_cases(ctx, n_valid, n_range, n_decode, depth):
             cases.append(r)
     for pv, t, v in SPECIALS:
         for p in sorted(set([pv, 2, 4])):
-            r = run_case(p, t, v, None, 'special')
+            r = run_case(p, t, v, rng if G.contains_scalar(t, 'date') else None, 'special')
             if r:
                 cases.append(r)
     cases.extend(big_vector_cases(rng, 3 if n_valid < 5000 else 12))
+    cases.extend(big16_cases(rng, 3 if n_valid < 5000 else 8))
     encs = []
     for i in range(n_valid):
         t = G.gen_type(rng, rng.randint(0, depth))
@@ -351,6 +445,36 @@ def record(ctx, cases):
             ctx.count('encode_outcome', c['enc_exc'] or 'ok')
             if G.has_coll_null(c['t'], c['v']):
                 ctx.count('features', 'null-in-collection')
+
+
+def date_input_cases(ctx, rng, n):
+    """util.Date(datetime / date / 'yyyy-mm-dd') -- the path SimpleDateType.serialize takes for non-Date inputs -- against the
+    model (date_days_of_seconds) and, on the implementation alone, against the calendar: the day CONTAINING the instant."""
+    import datetime
+    from cassandra import util
+    from cassandra.cqltypes import SimpleDateType
+    exprs, meta = [], []
+    days = [0, -1, 1, -2, -365, -366, 365, -719162, 2932896, -25567, 11016] + [rng.randint(-719162, 2932896) for _ in range(n)] + \
+           [rng.randint(-40000, 40000) for _ in range(n)]
+    for d in days:
+        for tod in [0, 1, 43200, 67500, 86399, rng.randrange(86400)]:
+            secs = 86400 * d + tod
+            dt = G.EPOCH + datetime.timedelta(days=d, seconds=tod)
+            ctx.count('date_inputs', 'datetime' if tod else 'midnight')
+            try:
+                got = util.Date(dt).days_from_epoch
+                enc = list(SimpleDateType.serialize(dt, 4))
+            except Exception as e:
+                got, enc = 'raises %s' % type(e).__name__, None
+            want = (dt.date() - datetime.date(1970, 1, 1)).days           # the calendar, independent of timegm arithmetic
+            if got != want or enc != list((want + 2 ** 31).to_bytes(4, 'big')):
+                ctx.violation('exact.date.from-datetime', 'date value %s is written as day %r (%s), Cassandra means day %d (%s)'
+                              % (dt.isoformat(), got, bytes(enc).hex() if enc else None, want, (want + 2 ** 31).to_bytes(4, 'big').hex()),
+                              case={'fn': 'date-of-datetime', 'days': d, 'tod': tod}, expected=want, actual=got, theorem='C02_date_of_instant')
+            if isinstance(got, int):
+                exprs.append('date_days_of_seconds %s =? %s' % (G.gz(secs), G.gz(got)))
+                meta.append(('date_days_of_seconds', secs, got))
+    return exprs, meta
 
 
 def marshal_pool(rng, n):
